@@ -300,7 +300,7 @@ def cancel_flag_then_crash(sig, ctx) -> bool:
         if e["e"] == "crash":
             c = e["s"]
             if c["wf"].get("canceled") and any(m["typ"] == "CancelWorkflow" for m in c["q"]) \
-                    and not any(m["typ"] in ("CancelStage", "CompleteWorkflow") for m in c["q"]):
+                    and not any(m["typ"] == "CancelStage" for m in c["q"]):
                 return True
     return False
 
